@@ -121,6 +121,9 @@ type Program struct {
 	// put into the loader before the observed Execute: a template that exists now is found now, whatever an
 	// earlier lookup of its name came to.
 	Late []string `json:"late,omitempty"`
+	// Gone (not with Dev): files that are deleted from the loader after the entry template was executed a first time
+	// (unjudged): what a Set has loaded it has, for include, exec and includeIfExists alike.
+	Gone []string `json:"gone,omitempty"`
 	// Dev: the Set is in development mode (nothing is cached; every lookup goes to the loader).
 	Dev bool `json:"dev,omitempty"`
 	// PriorEntry: a template of the same Set that is executed (with PriorData as context, unjudged) on the
